@@ -301,6 +301,42 @@ func runC18(c *core.Ctx, idx int) {
 			}
 		}(p)
 	}
+	// the literal converters the parser's listeners call for every literal: each goroutine converts literals of its own
+	// and gets the value of the literal it passed, whatever the others are converting at that moment
+	for p := 0; p < 4; p++ {
+		rwg.Add(1)
+		go func(p int) {
+			defer rwg.Done()
+			for n := 0; !stop.Load(); n++ {
+				// the same literal a few times in a row (a polled list request), then the next one
+				i := n / 4
+				sec := (i*4 + p) % 60
+				day := 1 + (i/7+p)%27
+				lit := fmt.Sprintf("datetime(2021-03-%02dT10:%02d:%02dZ)", day, p, sec)
+				if i%3 == 1 {
+					lit = fmt.Sprintf("datetime( 2021-03-%02dt10:%02d:%02d+01:00 )", day, p, sec)
+				}
+				want := time.Date(2021, 3, day, 10, p, sec, 0, time.UTC)
+				if i%3 == 1 {
+					want = want.Add(-time.Hour)
+				}
+				got, err := zitiql.ParseZqlDatetime(lit)
+				c.Count("helper_calls", 1)
+				c.Count("literal_conversions", 1)
+				if err != nil || !got.Equal(want) {
+					c.Violationf("C18 zitiql.ParseZqlDatetime returned another literal's value under concurrency", map[string]any{"literal": lit}, "%q -> %v (err %v), expected %v", lit, got, err, want)
+				}
+				str := fmt.Sprintf(`"g%d \"q\" i%d"`, p, i)
+				if got, want := zitiql.ParseZqlString(str), fmt.Sprintf(`g%d "q" i%d`, p, i); got != want {
+					c.Violationf("C18 zitiql.ParseZqlString returned another literal's value under concurrency", map[string]any{"literal": str}, "%s -> %q, expected %q", str, got, want)
+				}
+				c.Count("literal_conversions", 1)
+				if n%256 == 255 {
+					time.Sleep(50 * time.Microsecond)
+				}
+			}
+		}(p)
+	}
 	wg.Wait()
 	time.Sleep(20 * time.Millisecond)
 	stop.Store(true)
